@@ -302,6 +302,13 @@ func (c *Conn) ServerRead(p []byte) (int, error) {
 	}
 }
 
+// SkipServerRead makes the server side start reading at what the client writes from now on.
+func (c *Conn) SkipServerRead() {
+	c.mu.Lock()
+	c.srvOff = len(c.w)
+	c.mu.Unlock()
+}
+
 // StopServer makes a blocked ServerRead return io.EOF.
 func (c *Conn) StopServer() {
 	c.mu.Lock()
